@@ -674,8 +674,7 @@ func genAlloc4(c *ctx) {
 					continue
 				}
 				res := s.exec(c, fmt.Sprintf("free %s 32 32", hx(ip)))
-				if res == "ok" {
-					v4 := ip.To4()
+				if v4 := ip.To4(); res == "ok" && v4 != nil { // (a Free of an IPv6 address that "succeeds" is the driver's to judge)
 					v := uint32(v4[0])<<24 | uint32(v4[1])<<16 | uint32(v4[2])<<8 | uint32(v4[3])
 					for j, o := range outst {
 						if o == v {
